@@ -1,5 +1,5 @@
 """Property -> rules registry."""
-from .rules import kernel, incr, rot, sched, meas, integrator, kal, purity, diff, sensor, layout, geo, errmodel, frames, simrules, dtype, idxdom, forms
+from .rules import kernel, incr, rot, sched, meas, integrator, kal, purity, diff, sensor, layout, geo, errmodel, frames, simrules, dtype, idxdom, forms, interp
 
 PROPS = {
     'C01': dict(
@@ -177,7 +177,8 @@ PROPS = {
                lambda c: sched.sched_pair(c, (sched.FF,)),
                lambda c: sched.sched_handover(c, (sched.FF,)),
                lambda c: sched.sched_progress(c, (sched.FF,)),
-               idxdom.idx_domain, sensor.sm_gate],
+               idxdom.idx_domain, sensor.sm_gate,
+               lambda c: interp.interp_rules(c, ('feedforward',))],
         decided=['positional cursors address rows of their own time axis only (the readings '
                  'averaged for the sensor-state coupling come from the propagated interval)',
                  'state and noise block layout contiguous, disjoint and identical in all six '
@@ -190,7 +191,8 @@ PROPS = {
                    'independent batch (Gauss-Markov) solution']),
     'C12': dict(
         rules=[layout.est_rules, sensor.sm_accum, sensor.sm_sign,
-               lambda c: sched.sched_handover(c, (sched.FB,)), kal.q_psd, idxdom.idx_domain],
+               lambda c: sched.sched_handover(c, (sched.FB,)), kal.q_psd, idxdom.idx_domain,
+               interp.interp_rules],
         decided=['both filters reset both sensor models before any use (re-run reproducibility)',
                  'feedback effects (set_pva, update_estimates, correct) only inside the '
                  'measurement-due block: with no epoch in the span the loop is plain integration '
